@@ -293,8 +293,12 @@ print_unicode(iconv_t cd, int endian, int unicode, char **p, int n)
 	if ((size_t) -1 == r && E2BIG == errno)
 		goto error;
 
+	/* Some iconv implementations print '@' in place of characters
+	   not representable in the target format: a single byte, to
+	   be told from multi-byte encodings which merely start with
+	   0x40, such as U+0140 in UCS-2LE. */
 	if ((size_t) -1 == r
-	    || (**p == 0x40 && unicode != 0x0040)) {
+	    || (1 == op - *p && **p == 0x40 && unicode != 0x0040)) {
 		in[0 + endian] = 0x20;
 		in[1 - endian] = 0;
 		ip = in; op = *p;
